@@ -67,4 +67,16 @@ __CPROVER_requires(s != NULL && s == tmp_ptr && live_tmp == 1)
 __CPROVER_assigns(live_tmp)
 __CPROVER_ensures(live_tmp == 0)
 ;
+/* Dubins3D only: getPath() may report that no connecting path exists (arbitrary, fixed) */
+bool path_exists;
+bool getPath(const State *s1, const State *s2)
+__CPROVER_requires(s1 != NULL && s2 != NULL)
+__CPROVER_assigns()
+__CPROVER_ensures(__CPROVER_return_value == path_exists)
+;
+#ifdef WITH_PATH
+#define PE path_exists
+#else
+#define PE 1
+#endif
 #define REACH(tag) __CPROVER_assert(0, "REACH " tag)
